@@ -35,7 +35,7 @@ PROPS = {
         assumptions=["tag-value collisions (2^-63 per comparison)"],
     ),
     "C16": dict(
-        kind=ONLINE,
+        kind=ONLINE, sweep=True,
         rule=("cases = distinct (function, history containing NaN/inf) pairs, explored functions with NaN in the "
               "alphabet, and (function, argument list) pairs for direct evaluation / evaluate_v; plus the panic "
               "sweep re-running the other drivers' workloads (sweep_ops) with only panics transferred; every "
